@@ -103,9 +103,12 @@ XSModel::XSModel( XMLGrammarPool *grammarPool
     RefHashTableOfEnumerator<Grammar> grammarEnum = grammarPool->getGrammarEnumerator();
     while (grammarEnum.hasMoreElements())
     {
-        SchemaGrammar& sGrammar = (SchemaGrammar&) grammarEnum.nextElement();
-        if (sGrammar.getGrammarType() != Grammar::SchemaGrammarType ||
-            XMLString::equals(sGrammar.getTargetNamespace(), SchemaSymbols::fgURI_SCHEMAFORSCHEMA))
+        Grammar& grammar = grammarEnum.nextElement();
+        if (grammar.getGrammarType() != Grammar::SchemaGrammarType)
+            continue;
+
+        SchemaGrammar& sGrammar = (SchemaGrammar&) grammar;
+        if (XMLString::equals(sGrammar.getTargetNamespace(), SchemaSymbols::fgURI_SCHEMAFORSCHEMA))
             continue;
 
         // NOTE: In the grammarpool, preprocessed grammars without targetnamespace
